@@ -250,6 +250,29 @@ pub struct Draws {
 }
 
 impl Draws {
+    /// number of tape bytes the implementation consumed
+    pub fn consumed(&self, tape: i64) -> usize {
+        self.by_tape.get(&tape).map(|d| d.iter().map(|(o, l)| o + l).max().unwrap_or(0)).unwrap_or(0)
+    }
+    /// candidate positions for a random value of `len` bytes: the recorded draws of that length
+    /// first, then every offset of the consumed region (an implementation may draw several values
+    /// with one request, or through a larger buffer: which bytes become which value is not fixed
+    /// by any property)
+    pub fn candidates(&self, tape: i64, len: Option<usize>) -> Vec<(usize, usize)> {
+        let draws = self.by_tape.get(&tape).cloned().unwrap_or_default();
+        let mut v: Vec<(usize, usize)> = draws.iter().filter(|(_, l)| len.map(|w| w == *l).unwrap_or(true)).cloned().collect();
+        if let Some(w) = len {
+            let c = self.consumed(tape);
+            if c >= w {
+                for off in 0..=(c - w) {
+                    if !v.contains(&(off, w)) {
+                        v.push((off, w));
+                    }
+                }
+            }
+        }
+        v
+    }
     pub fn bytes(&self, tape: i64, off: usize, len: usize) -> Vec<u8> {
         use rand::RngCore;
         let mut r = crate::rng::TapeRng::new(self.run_seed, tape);
@@ -271,8 +294,10 @@ pub fn check_root(ev: &mut Evaluator, draws: &Draws, term: &Value, observed: &[u
         let tape = term[1].as_i64().unwrap();
         let role = term[2].as_str().unwrap().to_string();
         if role != "blind" {
-            let cands = draws.by_tape.get(&tape).cloned().unwrap_or_default();
-            let ok = cands.iter().any(|(off, len)| *len == observed.len() && draws.bytes(tape, *off, *len) == observed);
+            // anywhere in the bytes the operation consumed
+            let c = draws.consumed(tape);
+            let region = draws.bytes(tape, 0, c);
+            let ok = !observed.is_empty() && region.windows(observed.len()).any(|w| w == observed);
             if !ok {
                 return Err(format!("random value '{role}' = {} is not a draw of the caller's generator (tape {tape})", hex::encode(observed)));
             }
@@ -295,7 +320,6 @@ pub fn check_root(ev: &mut Evaluator, draws: &Draws, term: &Value, observed: &[u
             Err(EvalErr::Bad(m)) => return Err(format!("evaluation error: {m}")),
             Err(EvalErr::NeedRnd(tape, role)) => {
                 // candidates: every draw of that tape; accept the one that explains the observation
-                let cands = draws.by_tape.get(&tape).cloned().unwrap_or_default();
                 let mut found = false;
                 let want = match role.as_str() {
                     "sk" | "fake" | "eseed" | "seseed" => Some(ev.lens.nsk),
@@ -303,10 +327,8 @@ pub fn check_root(ev: &mut Evaluator, draws: &Draws, term: &Value, observed: &[u
                     "envnonce" | "mnonce" | "cnonce" | "snonce" => Some(ev.lens.nn),
                     _ => None,
                 };
+                let cands = draws.candidates(tape, want);
                 for (off, len) in cands {
-                    if want.map(|w| w != len).unwrap_or(false) {
-                        continue;
-                    }
                     let bytes = draws.bytes(tape, off, len);
                     ev.rnd.insert((tape, role.clone()), bytes);
                     ev.memo.clear();
